@@ -60,6 +60,17 @@ def ops_by_tool():
 def gen_late_directed(seed, rng, nctx):
     """Calls that warm the instances up, then a module of further models is imported, then a call that
     needs the new models goes through the same instances."""
+    from sim.pool import catalog as C
+
+    sensitive = [op for op in core.Z.ops if op.ck in C.L3_SENSITIVE]
+    if sensitive and rng.random() < 0.3:
+        # calls about a class whose field type gets its converter from a module imported in between
+        steps = [{"op": rng.choice(sensitive).name, "ctx": 0} for _ in range(rng.choice([1, 2, 3]))]
+        if rng.random() < 0.5:
+            steps.insert(rng.randrange(len(steps) + 1), {"op": rng.choice([o for o in core.Z.ops if not o.needs]).name, "ctx": 0})
+        steps.append({"import": "L3"})
+        steps += [{"op": rng.choice(sensitive).name, "ctx": 0} for _ in range(rng.choice([1, 2, 3]))]
+        return {"seed": seed, "nctx": 1, "steps": steps, "strategy": "late-directed"}
     late_ops = [op for op in core.Z.ops if op.needs]
     if not late_ops:
         return None
@@ -123,7 +134,7 @@ def _gen_spec(seed):
     forced = []
     late_plan = {}
     if rng.random() < 0.45:
-        for key in rng.sample(["L1", "L2"], rng.choice([1, 2])):
+        for key in rng.sample(["L1", "L2", "L3"], rng.choice([1, 2, 3])):
             late_plan[rng.randrange(length)] = key
     for i in range(length):
         if i in late_plan:
